@@ -1,6 +1,6 @@
 (* C02Witness.v — concrete witnesses for the C02 refutations and the non-vacuity example. *)
 From V.lib Require Import Base.
-From V.c01 Require Import C01Codec C01Model C01Witness.
+From V.c01 Require Import C01Codec C01Model C01Witness C01RealFiles C01RealWitness.
 From V.c02 Require Import C02Proofs.
 
 (* witnesses of the Size() defects repaired by repo commits c9514d3 (tfdt 4*Version), ede563a (sidx 8*Version)
@@ -35,3 +35,17 @@ Proof. split; [vm_compute; reflexivity|]. exists ex_moof_bytes. vm_compute. spli
 
 Lemma cont_sum h cs : size_box (MCont h cs) = 8 + sumN (map size_box cs).
 Proof. reflexivity. Qed.
+
+(* non-vacuity of C02_decoded_tree / C02_decoded_file: a moof{mfhd traf{tfhd tfdt trun}} followed by four more bytes (the
+   decoder leaves them), an unknown box with a large-size header (exact; its Size() is the decoded header size) and a real
+   media segment of /repo's testdata (styp sidx moof mdat) satisfy the hypotheses *)
+Lemma ex_decoded_ok :
+  bytes_ok (ex_moof_bytes ++ [0; 0; 0; 9]) = true /\ decode (ex_moof_bytes ++ [0; 0; 0; 9]) = Ok (ex_moof_tree, [0; 0; 0; 9]) /\
+  exact_box ex_moof_tree = true /\
+  bytes_ok w_unknown_large = true /\ decode w_unknown_large = Ok (treeof w_unknown_large, []) /\
+  exact_box (treeof w_unknown_large) = true.
+Proof. vm_compute. repeat split. Qed.
+Lemma ex_decoded_file_ok :
+  bytes_ok rf_media_seg = true /\ decode_file rf_media_seg = Ok (seq_of rf_media_seg) /\
+  forallb exact_box (seq_of rf_media_seg) = true /\ map box_name (seq_of rf_media_seg) = [n_styp; n_sidx; n_moof; n_mdat].
+Proof. vm_compute. repeat split. Qed.
